@@ -362,7 +362,7 @@ func c12ClientOps(stateless bool, op string) (obs, sig, msg string) {
 // ---------- (a) soundness
 
 type c12Req struct {
-	kind      string // stateless-modern, stateful-legacy, stateful-no-session-ids, sse
+	kind      string // stateless-modern, stateless-modern-notification, stateful-legacy, stateful-no-session-ids, sse
 	method    string
 	target    string
 	host      string
@@ -406,6 +406,7 @@ const c12BodyLimit = 400
 func c12Dims() []c12Dim {
 	all := func(string) bool { return true }
 	modern := func(k string) bool { return k == "stateless-modern" }
+	modernAny := func(k string) bool { return strings.HasPrefix(k, "stateless-modern") } // calls and notifications
 	streamable := func(k string) bool { return k != "sse" }
 	hdr := func(k, v, violates string) func(*c12Req) string {
 		return func(r *c12Req) string { c12SetHeader(r, k, v); return violates }
@@ -453,7 +454,7 @@ func c12Dims() []c12Dim {
 		}},
 		{"version-header", streamable, []func(*c12Req) string{
 			func(r *c12Req) string {
-				if r.kind == "stateless-modern" {
+				if strings.HasPrefix(r.kind, "stateless-modern") {
 					c12DelHeader(r, "Mcp-Protocol-Version")
 					return "version"
 				}
@@ -470,13 +471,13 @@ func c12Dims() []c12Dim {
 			},
 			func(r *c12Req) string {
 				c12SetHeader(r, "Mcp-Protocol-Version", "2025-03-26")
-				if r.kind == "stateless-modern" {
+				if strings.HasPrefix(r.kind, "stateless-modern") {
 					return "version" // the body's _meta says 2026-07-28
 				}
 				return ""
 			},
 		}},
-		{"mcp-method", modern, []func(*c12Req) string{
+		{"mcp-method", modernAny, []func(*c12Req) string{
 			del("Mcp-Method", "mcp-method"),
 			hdr("Mcp-Method", "tools/list", "mcp-method"),
 			hdr("Mcp-Method", "TOOLS/CALL", "mcp-method"),
@@ -549,7 +550,7 @@ func c12Setup(kind string) (*c12Endpoint, error) {
 	})
 	s.AddReceivingMiddleware(func(next MethodHandler) MethodHandler {
 		return func(ctx context.Context, method string, req Request) (Result, error) {
-			if method == "tools/call" {
+			if method == "tools/call" || method == "notifications/progress" {
 				dispatched++
 			}
 			return next(ctx, method, req)
@@ -566,6 +567,15 @@ func c12Setup(kind string) (*c12Endpoint, error) {
 					{"Mcp-Protocol-Version", "2026-07-28"}, {"Mcp-Method", "tools/call"}, {"Mcp-Name", "t"},
 					{"Mcp-Param-P", "val"}, {"Mcp-Param-Q", "7"}, {"Mcp-Param-R", "true"}},
 				body: `{"jsonrpc":"2.0","id":1,"method":"tools/call","params":{"name":"t","arguments":` + args + `,"_meta":{"io.modelcontextprotocol/protocolVersion":"2026-07-28","io.modelcontextprotocol/clientCapabilities":{}}}}`}
+		}
+	case "stateless-modern-notification":
+		// the same endpoint receiving a notification: its Mcp-Method header is checked like a call's
+		e.handler = NewStreamableHTTPHandler(func(*http.Request) *Server { return s }, &StreamableHTTPOptions{Stateless: true, Logger: quietLogger, MaxRequestBodyBytes: c12BodyLimit})
+		e.base = func() *c12Req {
+			return &c12Req{kind: kind, method: "POST", target: "/mcp", host: "localhost:80", localAddr: "127.0.0.1:80",
+				headers: [][2]string{{"Content-Type", "application/json"}, {"Accept", "application/json, text/event-stream"},
+					{"Mcp-Protocol-Version", "2026-07-28"}, {"Mcp-Method", "notifications/progress"}},
+				body: `{"jsonrpc":"2.0","method":"notifications/progress","params":{"progressToken":1,"progress":1,"_meta":{"io.modelcontextprotocol/protocolVersion":"2026-07-28","io.modelcontextprotocol/clientCapabilities":{}}}}`}
 		}
 	case "stateful-legacy":
 		h := NewStreamableHTTPHandler(func(*http.Request) *Server { return s }, &StreamableHTTPOptions{Logger: quietLogger, MaxRequestBodyBytes: c12BodyLimit})
@@ -729,6 +739,13 @@ func c12SoundnessCase(kind string, devs [][2]int) (obs, sig, msg string) {
 	}
 	synctest.Wait()
 	dispatched := *e.dispatch
+	if len(r.violated) == 0 && kind == "stateless-modern-notification" {
+		// (whether an accepted notification is then dispatched on a stateless endpoint is C03's known finding)
+		if status >= 400 || dispatched > 1 {
+			return "", "c12 soundness valid-request-rejected " + kind + " " + strings.Join(names, "+"), fmt.Sprintf("every precondition holds but status=%d dispatched=%d body=%.200q [%s]", status, dispatched, body, desc)
+		}
+		return kind + " accepted", "", ""
+	}
 	if len(r.violated) == 0 {
 		if dispatched != 1 || status >= 400 {
 			return "", "c12 soundness valid-request-rejected " + kind + " " + strings.Join(names, "+"), fmt.Sprintf("every precondition holds but status=%d dispatched=%d body=%.200q [%s]", status, dispatched, body, desc)
@@ -759,7 +776,7 @@ func TestVerifC12(t *testing.T) {
 	res := env.NewResult()
 	sound := env.NewCases(res, "soundness-deviations")
 	dims := c12Dims()
-	for _, kind := range []string{"stateless-modern", "stateful-legacy", "stateful-no-session-ids", "sse"} {
+	for _, kind := range []string{"stateless-modern", "stateless-modern-notification", "stateful-legacy", "stateful-no-session-ids", "sse"} {
 		type dv = [2]int
 		var singles []dv
 		for di, d := range dims {
